@@ -34,7 +34,7 @@ pub open spec fn spatial(input: Shape) -> (int, int, int) {
 }
 pub open spec fn small(n: usize) -> bool { n < 0x8000_0000 }
 
-//@unit conv.calculate_output_size prop=C08
+//@unit conv.calculate_output_size prop=C08 search=conv.shape
 impl Convolution {
 fn calculate_output_size(
     input: &tensor::Shape,
@@ -78,7 +78,7 @@ fn calculate_output_size(
 }
 //@endunit
 
-//@unit deconv.calculate_output_size prop=C08
+//@unit deconv.calculate_output_size prop=C08 search=deconv.shape
 impl Deconvolution {
 fn calculate_output_size(
     input: &tensor::Shape,
@@ -112,7 +112,7 @@ fn calculate_output_size(
 }
 //@endunit
 
-//@unit maxpool.calculate_output_size prop=C08
+//@unit maxpool.calculate_output_size prop=C08 search=pool.shape
 impl Maxpool {
 fn calculate_output_size(
     input: &tensor::Shape,
